@@ -42,6 +42,7 @@ macro_rules! c04_pert {
     };
 }
 //@ id: c04_pert_f64
+//@ besteffort: yes
 //@ prop: C04
 //@ tier: thorough
 //@ cap: 600
